@@ -34,6 +34,9 @@ const (
 	keyUnresolved  = "flushed-row-unresolved"
 	keyIdxUnres    = "flushed-index-entry-unresolved"
 	keyAckGtStored = "group-ack-gt-stored-sequence"
+	// the LOG's own acknowledged sequence (fanOutQueue.Sync -> queue.SetAcknowledgedSeq: truncation barrier, start
+	// position of reopened consumer groups) covers an entry with rows above the stored sequence
+	keyQAckGtStored = "log-ack-gt-stored-sequence"
 	keyReplayBelow = "applied-entry-le-stored-sequence"
 	keyLost        = "entry-neither-flushed-nor-replayable"
 	keyNotReplayed = "entry-missing-after-replay"
@@ -178,6 +181,8 @@ type caseRun struct {
 	entries []entry
 	ids     map[int64][]ids
 	sh      *shadow
+	idx     int  // case index
+	peer    bool // the leader's log has a second consumer group (remote follower peerNode)
 	tainted bool // a (known) loss of names happened: ids get reused from here on, stop the case
 	broken  bool // harness-level problem: stop the case
 	expired bool // the family's write window closed long ago: the WAL garbage collector may remove its log
@@ -966,6 +971,123 @@ func (r *caseRun) opGC() {
 	}
 }
 
+// peerNode = the remote follower of the leader's own log in the cases with a second consumer group.
+const peerNode = models.NodeID(7)
+
+// opPeerJoin: the leader's partition gets a remote follower through lindb's own path
+// (partition.BuildReplicaForLeader -> buildReplica: a second consumer group on the SAME log + a remote
+// replicator; after a restart partition.recovery rebuilds both from the group directories).
+func (r *caseRun) opPeerJoin() {
+	if r.n.part == nil {
+		return
+	}
+	if !r.guard("peer join", func() error { return r.n.part.BuildReplicaForLeader(r.cur, []models.NodeID{r.cur, peerNode}) }) {
+		return
+	}
+	r.peer = true
+	r.c.Branch("log-with-follower-group")
+}
+
+// opPeerAck: the follower's group consumes up to sequence k and acknowledges k (what the remote replicator
+// does with the follower's replica acknowledgement), on lindb's real consumer group.
+func (r *caseRun) opPeerAck(k int64) {
+	if r.n.part == nil || !r.peer {
+		return
+	}
+	r.guard("peer ack", func() error {
+		g, err := r.n.fq.GetOrCreateConsumerGroup(strconv.Itoa(int(peerNode)))
+		if err != nil {
+			return err
+		}
+		for g.ConsumedSeq() < k && g.ConsumedSeq() < r.n.fq.Queue().AppendedSeq() {
+			if g.Consume() < 0 {
+				break
+			}
+		}
+		g.Ack(k)
+		return nil
+	})
+}
+
+// opQSync = `ticks` ticks of the WAL garbage-collect task on a log with two consumer groups
+// (partition.IsExpire -> fanOutQueue.Sync + queue.GC); several ticks because Sync ranges over a Go map
+// (the model's answer does not depend on the visiting order: sync_order_irrelevant). The instant is a
+// crash point (queue meta page synced): the log's acknowledged sequence must not cover an entry with
+// rows above the stored sequence.
+func (r *caseRun) opQSync(ticks int) {
+	if r.n.part == nil || !r.peer {
+		return
+	}
+	g, err := r.n.fq.GetOrCreateConsumerGroup(strconv.Itoa(int(peerNode)))
+	if err != nil {
+		r.failHarness("peer group", err)
+		return
+	}
+	old := r.n.fq.Queue().AcknowledgedSeq()
+	for i := 0; i < ticks; i++ {
+		r.opGC()
+		if r.stop() || r.n.part == nil {
+			return
+		}
+	}
+	qa := r.n.fq.Queue().AcknowledgedSeq()
+	after := r.n.pos()
+	r.c.Op(fmt.Sprintf("qsync %d %d", g.AcknowledgedSeq(), old), fmt.Sprintf("qack=%d %s", qa, r.P()))
+	for _, x := range r.entries {
+		if x.ldr() == r.cur && !x.Bad && x.Seq <= qa && (!after.hasStored || x.Seq > after.stored) {
+			r.c.Fail(keyQAckGtStored, fmt.Sprintf("after %d WAL GC ticks (partition.IsExpire -> fanOutQueue.Sync) on leader %d's log with consumer groups {local: ack %d, follower: ack %d}: the log's acknowledged sequence %d covers entry %d, but the sequence stored with the data is %s",
+				ticks, r.cur, after.ack, g.AcknowledgedSeq(), qa, x.Seq, optStr(after.stored, after.hasStored)))
+			break
+		}
+	}
+	if after.ack < g.AcknowledgedSeq() {
+		r.c.Branch("sync-follower-ahead-of-local-group")
+	} else {
+		r.c.Branch("sync-follower-behind-local-group")
+	}
+	if after.ack < 0 {
+		r.c.Branch("sync-local-group-never-acknowledged")
+	}
+}
+
+// followerGroupBeforeFirstFlush: the leader's log has a remote follower; entries applied to the memory
+// database but not flushed (local group at -1), the follower acknowledged everything; WAL GC ticks; crash;
+// restart (replay from 0); then a flush (local ack moves), follower behind / ahead, ticks, crash.
+func (r *caseRun) followerGroupBeforeFirstFlush(n int) {
+	r.opPeerJoin()
+	for i := 0; i < n; i++ {
+		r.opAppend(i%2, i%3)
+	}
+	r.applyAll()
+	r.opPeerAck(int64(n - 1))
+	r.opQSync(8)
+	r.opCrash()
+	if r.stop() {
+		return
+	}
+	r.applyAll()
+	r.opQSync(4)
+	r.opFlushMeta()
+	r.opFlushIndex()
+	r.opFlushData(noCrash, false)
+	r.opQSync(4) // both groups at n-1: the log's position moves to n-1 = the stored sequence
+	r.opAppend(0, 0)
+	r.opAppend(1, 1)
+	r.applyAll()
+	r.opPeerAck(int64(n)) // follower ahead of the local group again (local ack n-1 >= 0)
+	r.opQSync(4)
+	r.opCrash()
+	if r.stop() {
+		return
+	}
+	r.applyAll()
+	r.opFlushMeta()
+	r.opFlushIndex()
+	r.opFlushData(noCrash, false)
+	r.opQSync(4) // local group ahead of the follower
+	r.opCrash()
+}
+
 // opFlushDataFail = dataFamily.Flush during which the creation of the data table file fails: the
 // memory database has been switched to immutable (with the sequences captured) and STAYS pending;
 // the family cannot flush again until it is closed. The history continues.
@@ -1683,6 +1805,17 @@ func (r *caseRun) opRecover(img string, partial bool) {
 				break
 			}
 		}
+		// clause 1b: nor does the log's own acknowledged sequence (queue meta page of the image)
+		if ln.part != nil {
+			qa := ln.fq.Queue().AcknowledgedSeq()
+			for _, e := range r.entries {
+				if e.ldr() == l && !e.Bad && e.Seq > stored && e.Seq <= qa {
+					r.c.Fail(keyQAckGtStored, fmt.Sprintf("crash image: the acknowledged sequence %d of leader %d's log covers entry %d, but the sequence stored with the data is %d (consumer group of the local replicator reopened at ack %d, replay starts at %d)",
+						qa, l, e.Seq, stored, p.ack, p.consumed+1))
+					break
+				}
+			}
+		}
 		// clause 3: every appended entry is in a data file or still in the log above the ack
 		for _, e := range r.entries {
 			if e.ldr() != l || e.Bad || obs.files[e.Slot] > 0 {
@@ -2398,6 +2531,12 @@ func (r *caseRun) randomCase(disciplined bool) {
 			known = append(known, [2]int{m, t})
 		}
 	}
+	if !r.multi() && r.cur == leader && !r.expired && r.idx%5 == 2 {
+		// every fifth history: the leader's log also feeds a remote follower (second consumer group); its
+		// acknowledgements and the WAL GC ticks are derived from the history so far (no draw from rng: the
+		// other cases' histories stay as they were)
+		r.opPeerJoin()
+	}
 	crashes := 0
 	maybeCrash := func(p int) bool {
 		if r.broken || r.tainted || r.terminal || crashes >= 3 || rng.Intn(100) >= p {
@@ -2482,7 +2621,13 @@ func (r *caseRun) randomCase(disciplined bool) {
 		case k < 50:
 			r.applyAll()
 		case k < 55:
-			r.opGC()
+			if r.peer && r.n.part != nil {
+				// the follower acknowledged everything / all but the last one or two entries, then GC ticks
+				r.opPeerAck(r.n.fq.Queue().AppendedSeq() - int64((len(r.entries)+i)%3))
+				r.opQSync(3)
+			} else {
+				r.opGC()
+			}
 		case k < 59:
 			maybeCrash(100)
 		case k < 62:
@@ -2651,7 +2796,7 @@ func (r *caseRun) randomCase(disciplined bool) {
 // ---------------------------------------------------------------- Run
 
 // lastScripted: cases 0..lastScripted are fixed histories
-const lastScripted = 33
+const lastScripted = 35
 
 func (area) Run(c *core.Ctx) error {
 	repo := os.Getenv("VERIF_REPO")
@@ -2670,7 +2815,7 @@ func (area) Run(c *core.Ctx) error {
 			continue
 		}
 		c.Begin(i)
-		r := &caseRun{c: c, rng: c.Rng(i), famTime: hour, ids: map[int64][]ids{}, lossFate: map[int64]string{},
+		r := &caseRun{c: c, idx: i, rng: c.Rng(i), famTime: hour, ids: map[int64][]ids{}, lossFate: map[int64]string{},
 			sh: &shadow{metric: newDict(), tagv: newDict(), index: newDict(), swapOnEmpty: swap, fate: map[int64]string{}, idxFate: map[string]string{}}}
 		r.innerK = -1
 		if i == 17 {
@@ -2756,6 +2901,9 @@ func (area) Run(c *core.Ctx) error {
 				c.Branch("crash-at-manifest-record-scripted")
 				x := [][3]int{{innerData, 0, 0}, {innerData, 0, 1}, {innerMeta, 0, 1}, {innerMeta, 1, 0}, {innerIndex, 0, 1}, {innerIndex, 2, 0}}[i-26]
 				r.crashAtManifestRecord(x[0], x[1], x[2] == 1)
+			case i == 34 || i == 35:
+				c.Branch("follower-group-before-first-flush")
+				r.followerGroupBeforeFirstFlush([]int{3, 10}[i-34])
 			case i == 33:
 				c.Branch("no-rows-entries")
 				r.noRowsEntries()
